@@ -17,7 +17,7 @@ CHECKS = {
          "50 (quick) / 3,000 (thorough) grammar-directed type-system documents (every definition kind, extensions, constant directives and defaults, descriptions from a pool of 29 hostile texts: leading / trailing blank space and newlines, common indentation, CR, control characters, triple quotes, trailing backslash or quote) x 12 option sets (3 indents x comments x without-description); 40 / 2,500 loaded schemas from the typed generator (custom roots, default-named non-roots, schema description and directives, repeatable directives, described arguments, hostile descriptions) plus 19 hand-written corner cases (no query root, user-defined prelude directives) x 4 / 12 option sets.",
          "Two recorded known findings pinned by golden files (argument separator under WithoutDescription; schema description not printed by FormatSchema). Default values and directive arguments of loaded schemas are compared by printed literal.", "4/C13"),
  'C11': ("Shared.tla (read-only operations on one schema; ReadOnly and SameAsAlone invariants over all interleavings of 3 goroutines, faulty writer as non-vacuity witness) + Shared_Trace on real runs: results equal the call run alone on a pristine schema, canonical deep snapshots of the schema graph equal before/after, no race-detector report; forced interleavings through hook H3",
-         "Per run: two fixed schemas whose tables are not in alphabetical order with every hand-written document (history + 4 goroutines), then 2/8 schemas x (4/12 single-threaded histories of 30/75 calls with a snapshot around every call and a re-rendering of every returned value after the last call; goroutine runs with 2..8 / 2..32 goroutines in a child process built with -race; all 20 / 70 interleavings of two validations at walkSelection granularity). Calls are random mixes of parse+validate (valid, faulty, type-blind), variable coercion, argument resolution and schema formatting.",
+         "Per run: three fixed schemas (tables not in alphabetical order; lists with repeats from extensions) with every hand-written document (history + 4 goroutines), then 2/8 schemas x (4/12 single-threaded histories of 30/75 calls with a snapshot around every call and a re-rendering of every returned value after the last call; goroutine runs with 2..8 / 2..32 goroutines in a child process built with -race; all 20 / 70 interleavings of two validations at walkSelection granularity). Calls are random mixes of parse+validate (valid, faulty, type-blind), variable coercion, argument resolution and schema formatting.",
          "Data-race freedom is decided by the Go race detector on the schedules that occur; the snapshot is a reflective walk of everything reachable from *ast.Schema (including spare slice capacity).", "4/C11"),
 
  'C02': ("FragTraversal.tla (visits under the Global / OnPath memo disciplines, linearity model-checked on all 3-fragment graphs) + Total2_Trace: every LoadSchema / Validate call runs in a crash-isolated child process; hook-H2 recursion step counters per site are checked against polynomial bounds in the document size",
@@ -28,10 +28,10 @@ CHECKS = {
          "360 (quick) / 12,000 (thorough) generated valid documents on generated schemas, the valid ones among the small-scope documents of C08 (about 800 / 12,000), plus hand-written ones; every third document also validated on a fresh parse with a rule subset (none, no value observers, no directive observers) and linked again (fields reached only through fragments, __typename on unions, introspection fields, values nested in lists inside input objects inside lists, list-coerced single values, variables in every position incl. fragments shared by several operations, directives on every executable location).",
          "The inline-fragment link is a recorded known finding (links the enclosing type). Node identity is assigned by the projection.", "4/C09"),
  'C10': ("Determinism.tla function law (model-checked) and Determinism_Trace: the complete error list (order, rule, message incl. suggestions, locations, file) of every case observed on fresh parses, on re-validation of the same tree, and in 3/8 fresh worker processes must be identical; same for schema-load errors",
-         "450 (quick) / 12,000 (thorough) cases: generated valid / faulty / misspelt (several equidistant candidates) / type-blind documents, hand documents on a schema with near-identical names (Item / ITEM, Doa..Doe, RED/REB/REC), faulty schemas.",
+         "670 (quick) / 12,000 (thorough) cases: generated valid / faulty / misspelt (several equidistant candidates) / type-blind documents, the adversarial families of C02 at small sizes, a third of the merge family of C08, cyclic fragments with conflicts, hand documents on a schema with near-identical names (Item / ITEM, Doa..Doe, RED/REB/REC), faulty schemas.",
          "Map-order effects are sampled over K processes, not enumerated.", "4/C10"),
  'C18': ("Compose.tla CompositionLaw model-checked on abstract observers (with an interfering observer as non-vacuity witness); Compose_Trace checks on real runs that each rule set's errors are the multiset union of its members' singleton errors, tags, default = explicit full list, and the without-suggestions variants",
-         "250 (quick) / 2,600 (thorough) (schema, document) pairs x (27 singletons + full list + default + 10/50 random subsets in random order on fresh parses against freshly loaded schemas + 3 subsets in sequence on one shared tree + 4 variants).",
+         "250 (quick) / 2,600 (thorough) (schema, document) pairs x (27 singletons + full list + default + the explicit empty list + 10/50 random subsets in random order on fresh parses against freshly loaded schemas + 3 subsets in sequence on one shared tree + 4 variants).",
          "Errors are compared as (rule, message, locations).", "4/C18"),
 
  'C08': ("Rules.tla: the 27 validation rules as predicates over (schema, document) on top of a typed walk written in TLA+ (FieldsInSetCanMerge / SameResponseShape, variable usage with location defaults, literal coercion with 32-bit Int range, oneOf, introspection depth); Rules_Trace evaluates them with TLC on the parsed document and loaded schema and compares the document verdict with validator.Validate; three-way agreement with generator intent",
@@ -48,7 +48,7 @@ CHECKS = {
          "All types of list depth <= 1 (quick) / 2 (thorough) with every non-null pattern over Int, String, E, In, Any (+ Float, Boolean, ID), conforming values and values with a defect at each depth, defaults valid only through list coercion: 3,000 / ~10^5 cases x 5 Go representations; a second phase in the same process on a second schema with the same type names and enum E { RED } (1,800 cases, the specification evaluated for that schema); 3,000 / 200,000 random type-directed cases to list depth 3.",
          "The scalar kind table is the library's documented one (DESIGN appendix B); __typename keys excluded.", "4/C14"),
  'C15': ("ArgMap.tla precedence machine (literal > variable > default, explicit null is a value) with Precedence and VarLaw invariants model-checked; every row of the decision table printed by TLC replayed into Field.ArgumentMap and Directive.ArgumentMap after real validation and variable coercion",
-         "1,269 rows: three variables ($p: Int, $q: Int = 3, $n: Int = null) x absent / null / supplied, one of nine arguments written as nothing, literal (nested lists / input objects with variables, custom-scalar literals of every kind, numeric literals beyond int64 / float64) or variable; whole argument map compared entry by entry, panics reported; all rows of one document text are resolved on ONE validated tree; ArgMapOps_MC: two operations sharing a fragment (one declaring a default), 24 rows x both orders of the operations.",
+         "1,269 rows: three variables ($p: Int, $q: Int = 3, $n: Int = null) x absent / null / supplied, one of nine arguments written as nothing, literal (nested lists / input objects with variables, custom-scalar literals of every kind, numeric literals beyond int64 / float64) or variable; whole argument map compared entry by entry, panics reported; every row carries the directive on the operation, the field, two spreads of one fragment, an inline fragment and the fragment definition; all rows of one document text are resolved on ONE validated tree; ArgMapOps_MC: two operations sharing a fragment (one declaring a default), 24 rows x both orders of the operations.",
          "Absent variable nested in a literal contributes null; generated-document coverage (C->M) of argument maps is not built yet.", "4/C15"),
 
  'C01': ("TLA+ lexer/budget specifications + Total_Trace.tla validating, per input, outcomes, error positions (InsideInput over the spec's line table) and hook-H1 work counters recorded from the real lexer loop and six parser entry points run in a crash-isolated child process",
@@ -64,10 +64,10 @@ CHECKS = {
          "Exhaustive within bounds (all paths up to 5/6 tokens over 34 classes, transition and near-miss covers at 11/14 tokens), plus generated type-system trees, single-token mutations and hand-written texts with lists nested at every position validated by SchemaGrammar_Trace; BuiltIn_Trace: 60 / 1,500 lists of 2-4 sources in one call with built-in sources at any position (merged document = concatenation, BuiltIn flag of every definition = flag of the source its position names).",
          "Trusts SchemaGrammar.tla and the SchemaDocument projection; empty description equals none; AST lists compared in fixed order.", "4/C06"),
  'C16': ("TokenLimit.tla budget machine (peek/next/comment-group) model-checked for Lookahead, CountOnce, WorkBound, Exact, Sticky; hook-H1 event streams of real parses validated by TokenLimit_Trace against the machine and against the specification's own tokenisation",
-         "Every generated document x every limit 0..tokens+2 x every limited entry point: the recorded stream of lexer calls / counter increments / limit hits must be a behaviour of the budget machine, the outcome must be exact (ok iff unlimited ok and tokens <= limit), the tree identical, and no lexer call may follow the limit error; lists of three sources in one call (the limit is per source: ok iff every source parses and fits) at limits around the largest source and the sum; 1 MiB (quick) / 8 MiB (thorough) nesting, token-flood and comment-flood families under limits 1..200000 run in a child process with lexer calls <= limit + 1.",
+         "Every generated document x every limit 0..tokens+2 x every limited entry point: the recorded stream of lexer calls / counter increments / limit hits must be a behaviour of the budget machine, the outcome must be exact (ok iff unlimited ok and tokens <= limit), the tree identical, and no lexer call may follow the limit error; lists of three sources in one call (the limit is per source: ok iff every source parses and fits) at limits around the largest source and the sum; big inputs behind a source of exactly `limit` tokens; 1 MiB (quick) / 8 MiB (thorough) nesting, token-flood and comment-flood families under limits 1..200000 run in a child process with lexer calls <= limit + 1.",
          "Work/memory/recursion are bounded through the event counters (lexer calls, next() calls), not measured in seconds or bytes; trusts hook H1 placement.", "4/C16"),
  'C19': ("JsonCodec.tla (key sets + decoder discrimination rule, round-trip theorem model-checked); every path of the QueryGrammar graph parsed, JSON-encoded, decoded and compared with the tree denoted by the SPECIFICATION's events; generated deep documents' before/after trees and real per-selection key sets validated by JsonCodec_Trace",
-         "All derivable sentences up to 6/7 tokens, a sentence through every transition of the 12/16-token graph, and 1,500/40,000 generated documents of depth up to 6 with all three selection kinds in all orders.",
+         "Every document is decoded from the library's own encoding and from an indented or key-re-ordered spelling of it. All derivable sentences up to 6/7 tokens, a sentence through every transition of the 12/16-token graph, and 1,500/40,000 generated documents of depth up to 6 with all three selection kinds in all orders.",
          "Positions and comments are not compared (not in the statement).", "4/C19"),
 
  'C03': ("TLA+ transducer Lexer.tla model-checked by TLC (tiling, maximal munch, fold=step, positions); its state graph replayed path-by-path into lexer.ReadToken (M->C), Lexer_Cases terminal-state print for block strings / escapes, and recorded token streams validated by Lexer_Trace (C->M)",
